@@ -9,7 +9,7 @@ CORR_MODULES = ["KeyHash.KeyCorr"]
 PREFIX = "C11"
 CASE_TYPE = "KH_case"
 HARNESS = "c11"
-KNOWN = {1: "C11-key-id-collision", 2: "C11-reader-derivation-mutable"}
+KNOWN = {1: "C11-key-id-collision", 2: "C11-reader-derivation-codec"}
 RULE = ("a case is one keyed DynamicType built at run time (nested keys, several keys, string / sequence / "
         "array / struct keys, explicit or per-struct member ids) with two DynamicData samples (op h: both "
         "writer-side handles) or one sample (op r: writer handle + six reader-side derivations, through a "
@@ -26,7 +26,7 @@ ASSUMPTIONS = ["a nested DynamicData carries the type its member descriptor decl
                "key members are not optional, nested key structures are FINAL or APPENDABLE, no sequence/array of "
                "sequence/array, no enum/union/bitmask/wstring/map key members, char8 values are ASCII",
                "=> direction: outside the recorded class C11-key-id-collision and modulo an explicit MD5 coincidence",
-               "reader derivation of a MUTABLE topic type without key hash: recorded class C11-reader-derivation-mutable",
+               "reader derivation without key hash for sample types with MUTABLE structures, FLOAT128, multi-dimensional arrays or optional members: recorded class C11-reader-derivation-codec (root cause in the XCDR codec, C09)",
                "the NotAlive* derivation is exercised through deserialize_topic_type (deserialize_top_level_type "
                "followed by validation) because xtypes::deserializer is pub(crate)"]
 
@@ -212,6 +212,28 @@ def gen_topic_type(r, ext=None):
         if key_member_count(t) > 0:
             return t
     return ("S", "f", [(0, True, False, ("p", "u32"))])
+
+
+def codec_safe(t):
+    """sample types on which the real XCDR codec returns the sample it was given (see KeyCorr.codec_ok)"""
+    k = t[0]
+    if k == "p":
+        return t[1] != "f128"
+    if k == "s":
+        return True
+    if k == "q":
+        return codec_safe(t[1])
+    if k == "a":
+        return len(t[2]) == 1 and codec_safe(t[1])
+    return t[1] != "m" and all((not m[2]) and codec_safe(m[3]) for m in t[2])
+
+
+def gen_safe_topic_type(r):
+    for _ in range(200):
+        t = gen_topic_type(r)
+        if codec_safe(t):
+            return t
+    return FIXED_TYPES[0]
 
 
 def key_members(t):
@@ -463,8 +485,9 @@ def gen(r, tier):
     cases = []
     for t in FIXED_TYPES:
         cases += pair_cases(r, t, 6, 12 if tier == "quick" else 60)
-        for _ in range(3):
-            cases.append(("r", t, gen_fields(r, t)))
+        if codec_safe(t):
+            for _ in range(3):
+                cases.append(("r", t, gen_fields(r, t)))
     # MD5 differential: byte-sequence keys of every length around the block boundaries
     for ln in list(range(13, 140)) + [183, 184, 247, 248, 500]:
         if tier == "quick" and ln > 70 and ln % 3:
@@ -473,11 +496,13 @@ def gen(r, tier):
         b = [(0, ("Q", "u8", [r.randint(0, 255) for _ in range(ln - 4)]))]
         cases.append(("h", MD5_TYPE, a, b))
     while len(cases) < n:
-        t = gen_topic_type(r)
         k = r.random()
         if k < 0.7:
+            t = gen_topic_type(r)
             cases += pair_cases(r, t, 4, 6 if tier != "thorough" else 20)
         else:
+            # reader-side derivations: sample types the XCDR codec handles (outside: corpus witnesses)
+            t = gen_safe_topic_type(r)
             for _ in range(3):
                 cases.append(("r", t, gen_fields(r, t)))
     # a few types outside the supported fragment / degenerate
@@ -499,9 +524,16 @@ def corpus():
          [(0, ("P", "u8", 2)), (1, ("{", [(0, ("P", "u8", 7))]))]),
         ("h", t_col2, [(0, ("P", "u16", 1)), (1, ("{", [(0, ("P", "u8", 7))]))],
          [(0, ("P", "u16", 2)), (1, ("{", [(0, ("P", "u8", 7))]))]),
+        # C11-reader-derivation-codec: MUTABLE + 8-byte member, FLOAT128, two-dimensional array, optional member
         ("r", ("S", "m", [(5, True, False, ("p", "i64")), (7, True, False, ("a", ("p", "u8"), [3])),
                           (9, False, False, ("p", "u8"))]),
          [(5, ("P", "i64", -2)), (7, ("Q", "u8", [1, 2, 3])), (9, ("P", "u8", 1))]),
+        ("r", ("S", "f", [(0, True, False, ("p", "u8")), (1, False, False, ("p", "f128"))]),
+         [(0, ("P", "u8", 2)), (1, ("P", "f128", 238))]),
+        ("r", ("S", "f", [(0, True, False, ("a", ("p", "u16"), [3, 2]))]),
+         [(0, ("Q", "u16", [2, 203, 224, 23195, 113, 238]))]),
+        ("r", ("S", "f", [(0, False, True, ("S", "f", [(2, True, False, ("p", "c8"))])), (1, True, False, ("p", "u32"))]),
+         [(0, ("{", [(2, ("P", "c8", 10))])), (1, ("P", "u32", 2397364309))]),
     ]
 
 
@@ -722,6 +754,6 @@ MANIFEST = {
     "note": ("Trusted: Coq kernel + vm_compute; hand model KeyModel.v/Md5Model.v (checked against the code and the md5 "
              "crate by the correspondence run on every check); harness and comparator. Axioms: none. The reader-side "
              "derivations without key hash depend on the XCDR codec round trip (C09), assumed in the theorem and "
-             "exercised on the real code. Known findings: C11-key-id-collision, C11-reader-derivation-mutable."),
+             "exercised on the real code. Known findings: C11-key-id-collision, C11-reader-derivation-codec."),
     "technique": "Coq proof (structural induction, prefix-free encoding) + differential correspondence with oracle evaluated in Coq",
 }
